@@ -887,6 +887,25 @@ func (ex *Exec) convertStruct(t Term, to types.Type) Term {
 	return Term{S: sx(so.ctor, args...), T: to}
 }
 
+// lenFacts: the lengths of the slices directly inside a value of type T are non-negative (quantifier-free).
+func (ex *Exec) lenFacts(t string, T types.Type) string {
+	tc := ex.vc.tc
+	switch T.Underlying().(type) {
+	case *types.Struct:
+		var cs []string
+		for _, f := range tc.structInfoOf(T).fields {
+			if _, ok := f.typ.Underlying().(*types.Slice); ok {
+				cs = append(cs, ex.lenFacts(sx(f.sel, t), f.typ))
+			}
+		}
+		return sAnd(cs...)
+	case *types.Slice:
+		l := sx("len_"+tc.sortOf(T), t)
+		return sAnd(sx("<=", "0", l), sx("<=", l, "4611686018427387904"))
+	}
+	return "true"
+}
+
 func (ex *Exec) typeAssert(fr *Frame, st *State, x *ssa.TypeAssert) Value {
 	tc := ex.vc.tc
 	v := ex.term(fr, st, x.X)
@@ -909,6 +928,10 @@ func (ex *Exec) typeAssert(fr *Frame, st *State, x *ssa.TypeAssert) Value {
 		c := tc.dynCtor(at)
 		ok = sx("(_ is "+c+")", v.S)
 		val = sx("un"+c, v.S)
+		// type invariant of the boxed value (slice lengths are non-negative, integers are in their machine range)
+		if rf := ex.lenFacts(val, at); rf != "true" {
+			ex.assume(st, sx("=>", ok, rf))
+		}
 	} else {
 		id := ex.typeID(at)
 		ok = sAnd(sx("(_ is Dyn_other)", v.S), sEq(sx("dyn_tid", v.S), fmt.Sprint(id)))
